@@ -16,7 +16,7 @@ def main():
         path = sys.argv[sys.argv.index("--replay") + 1]
         from props import replay
         sys.exit(replay.replay_file(path))
-    check.main_wrapper(pid, mod.run)
+    check.main_wrapper(pid, mod.run, getattr(mod, "safety_net", None))
 
 
 main()
